@@ -24,12 +24,13 @@ CONFIG = {
     'quick': {'shards': 16, 'budget_s': 150, 'maxbonds': 3, 'n_corpus': 1000, 'exhaustive_subspaces': [
         '13 centre elements x charge -2..+2 x radical x multisets of <= 3 bonds over 12 (order, neighbour) types'],
         'floors': {'evaluations': 60000, 'distinct_nontrivial': 20000, 'env.exhaustive': 50000, 'oracle.table-interpreter': 60000,
-                   'oracle.rdkit-both-defined': 8000, 'totals.compared': 700, 'aromatic-atoms.compared': 3000}},
+                   'oracle.rdkit-both-defined': 8000, 'totals.compared': 700, 'aromatic-atoms.compared': 3000,
+                   'totals.after-label-edit': 400}},
     'thorough': {'shards': 16, 'budget_s': 1800, 'maxbonds': 4, 'n_corpus': 4200, 'exhaustive_subspaces': [
         '13 centre elements x charge -2..+2 x radical x multisets of <= 4 bonds over 12 (order, neighbour) types'],
         'floors': {'evaluations': 300000, 'distinct_nontrivial': 100000, 'env.exhaustive': 230000,
                    'oracle.table-interpreter': 300000, 'oracle.rdkit-both-defined': 30000, 'totals.compared': 3000,
-                   'aromatic-atoms.compared': 15000}},
+                   'aromatic-atoms.compared': 15000, 'totals.after-label-edit': 1500}},
 }
 SYM2Z = {}
 
@@ -253,6 +254,7 @@ def check_molecule(ctx, m, src, rng, strict_states=True):
             ctx.violation('radical-flag-is-not-any-over-atoms', src, w)
         if abs(m.molecular_mass - mass) > 1e-6 or abs(float(m) - mass) > 1e-6:
             ctx.violation('mass-is-not-the-sum-over-atoms', '%s: %r vs %r' % (src, m.molecular_mass, mass), w)
+        totals_after_label_edit(ctx, m, src, rng)
         if err == Chem.SANITIZE_NONE:
             try:
                 f = rdMolDescriptors.CalcMolFormula(rm)
@@ -268,6 +270,63 @@ def check_molecule(ctx, m, src, rng, strict_states=True):
                         ctx.violation('mass-differs-from-rdkit', '%s: %.4f vs RDKit %.4f' % (src, m.molecular_mass, mw), w)
             except Exception as e:
                 ctx.note('rdkit totals failed on %s: %r' % (src, e))
+
+
+def sums_over_atoms(m):
+    counts = {}
+    hs = 0
+    mass = 0.0
+    hm = Element.from_symbol('H')().atomic_mass
+    for _, a in m.atoms():
+        counts[a.atomic_symbol] = counts.get(a.atomic_symbol, 0) + 1
+        hs += a.implicit_hydrogens
+        iso = a.isotopes_masses
+        mass += (iso[a.isotope] if a.isotope else sum(x * iso[i] for i, x in a.isotopes_distribution.items())) + a.implicit_hydrogens * hm
+    if hs:
+        counts['H'] = counts.get('H', 0) + hs
+    return ({k: v for k, v in counts.items() if v}, sum(a.charge for _, a in m.atoms()), any(a.is_radical for _, a in m.atoms()), mass)
+
+
+def totals_after_label_edit(ctx, m, src, rng):
+    """the totals are read (cached), then one atom's charge / radical flag / isotope is edited inside `with mol:` without any
+    structural change; the totals read afterwards must be the sums over the atoms as they are now"""
+    from rt import gen as G
+    c = m.copy()
+    G._fix_slots(c)
+    try:
+        before = (dict(c.brutto), c.molecular_charge, c.is_radical, c.molecular_mass, int(c), float(c))
+    except Exception:
+        return
+    n = rng.choice(list(c._atoms))
+    a = c._atoms[n]
+    kind = rng.choice(('charge', 'radical', 'isotope'))
+    try:
+        with c:
+            if kind == 'charge':
+                c.atom(n).charge = a.charge + (1 if a.charge <= 0 else -1)
+            elif kind == 'radical':
+                c.atom(n).is_radical = not a.is_radical
+            else:
+                isos = sorted(a.isotopes_masses)
+                c.atom(n).isotope = rng.choice(isos) if not a.isotope else None
+    except Exception:
+        ctx.count('totals.label-edit-rejected')
+        return
+    if any(x.implicit_hydrogens is None for _, x in c.atoms()):
+        ctx.count('totals.label-edit-left-no-valence-state')
+        return
+    ctx.count('totals.after-label-edit')
+    ctx.count('totals.after-label-edit.' + kind)
+    want = sums_over_atoms(c)
+    got = ({k: v for k, v in c.brutto.items() if v}, c.molecular_charge, c.is_radical, c.molecular_mass)
+    w = {'smiles': src, 'edit': [kind, n]}
+    for name, x, y in zip(('formula', 'charge', 'radical-flag', 'mass'), got, want):
+        if (abs(x - y) > 1e-6) if name == 'mass' else x != y:
+            ctx.violation('%s-is-not-the-sum-over-atoms/after-label-edit-in-transaction' % name,
+                          '%s, %s of atom %d edited in `with`: library %r, atoms %r (before the edit %r)' % (src, kind, n, x, y, before[:4]), w)
+            return
+    if int(c) != want[1] or abs(float(c) - want[3]) > 1e-6:
+        ctx.violation('charge-is-not-the-sum-over-atoms/after-label-edit-in-transaction', '%s int()/float()' % src, w)
 
 
 def worker(ctx):
